@@ -96,7 +96,8 @@ def mode_F(
     if classical:
         return Kb * temp * np.log(freqs / (Kb * temp))
     else:
-        return Kb * temp * np.log(1.0 - np.exp((-freqs) / (Kb * temp))) + freqs / 2
+        # log(1 - e^-x) with expm1: no loss of digits (or log(0)) at small x
+        return Kb * temp * np.log(-np.expm1((-freqs) / (Kb * temp))) + freqs / 2
 
 
 def mode_S(
